@@ -65,6 +65,10 @@ static void dump(long seq, int step, int op, long ret, jwk_set_t *s, const char 
 	}
 	if (mode != 1) past_end_nonnull = jwks_item_get(s, n) != NULL;
 	if (jwks_item_get(s, n + 3) != NULL) past_end_nonnull = 1;
+	/* indexes that alias a valid one when narrowed to 32 / 16 / 8 bits */
+	if (jwks_item_get(s, (size_t)1 << 32) != NULL || jwks_item_get(s, ((size_t)1 << 32) + n / 2) != NULL || jwks_item_get(s, ((size_t)1 << 40) + 1) != NULL ||
+	    jwks_item_get(s, (size_t)-1) != NULL || (n <= 65536 && jwks_item_get(s, 65536 + n / 2) != NULL) || (n <= 256 && jwks_item_get(s, 256) != NULL))
+		past_end_nonnull = 1;
 	printf("[\"P\",%ld,%d,%d,%ld,%zu,%d,%d,%d,[", seq, step, op, ret, n, jwks_error_any(s), jwks_error(s), jwks_error_msg(s)[0] != 0);
 	for (size_t i = 0; i < n; i++) printf("%s[%ld,%d,%d]", i ? "," : "", uid[i], kc[i], er[i]);
 	if (past_end_nonnull) printf("%s[-9,-9,-9]", n ? "," : "");	/* get past the end must be NULL */
@@ -95,11 +99,11 @@ static jwk_set_t *do_op(long seq, int step, int op, jwk_set_t *s)
 	case 6: ret = jwks_item_free(s, 0); break;
 	case 7: ret = jwks_item_free(s, n / 2); break;
 	case 8: ret = jwks_item_free(s, n ? n - 1 : 0); break;
-	case 9: ret = jwks_item_free(s, n); break;
+	case 9: ret = jwks_item_free(s, (step & 1) ? n : (size_t)1 << 32); break;	/* out of range: count itself, or 2^32 (an index that is 0 once narrowed to 32 bits) */
 	case 10: ret = jwks_item_free_bad(s); break;
 	case 11: ret = jwks_item_free_all(s); break;
 	case 12: jwks_error_clear(s); break;
-	case 13: ret = jwks_item_free(s, n + 5); break;
+	case 13: ret = jwks_item_free(s, (step & 1) ? n + 5 : ((size_t)1 << 32) + n / 2); break;	/* out of range: count+5, or 2^32 + a valid index */
 	case 14: {	/* one document with 300 good keys (kid "k", unique ids): list lengths beyond 255 / 1024 */
 		size_t cnt = n > 3500 ? 5 : 300, cap = cnt * 96 + 32, off;
 		char *big = malloc(cap), one[160];
